@@ -723,6 +723,10 @@ func (c *EvalCtx) evalCall(e *Expr) *V {
 		argc(1)
 		ref := c.refOf(c.eval(e.Args[0]), e.Args[0])
 		return vInt(sSel(st.comp("lockacq", 1, "Int"), ref), types.Typ[types.Int])
+	case "heldAt":
+		// heldAt(x): lock state of the lock with identity x
+		argc(1)
+		return vInt(sSel(st.comp("held", 1, "Int"), c.intOf(e.Args[0])), types.Typ[types.Int])
 	case "noLocksHeld":
 		argc(0)
 		return vBool("(forall ((l Int)) (! (= (select " + st.comp("held", 1, "Int") + " l) 0) :pattern ((select " + st.comp("held", 1, "Int") + " l))))")
@@ -1023,6 +1027,22 @@ func (c *EvalCtx) evalCall(e *Expr) *V {
 			}
 			return vInt(sSel(st.comp("bytes#content", 1, "Int"), a.Arr), types.Typ[types.String])
 		}
+	case "listLen":
+		argc(1)
+		return vInt(sSel(st.comp("list#len", 1, "Int"), c.intOf(e.Args[0])), types.Typ[types.Int])
+	case "listAt":
+		// listAt(l, i): i-th element of the list (ghost sequence)
+		argc(2)
+		{
+			t := c.resolveType("*list.Element")
+			return vInt(selN(st.comp("list#seq", 2, "Int"), []string{c.intOf(e.Args[0]), c.intOf(e.Args[1])}), t)
+		}
+	case "elemList":
+		argc(1)
+		return vInt(sSel(st.comp("listel#in", 1, "Int"), c.intOf(e.Args[0])), c.resolveType("*list.List"))
+	case "elemIdx":
+		argc(1)
+		return vInt(sSel(st.comp("listel#idx", 1, "Int"), c.intOf(e.Args[0])), types.Typ[types.Int])
 	case "errOf":
 		// errOf(tag, val): the error value with that dynamic type tag and payload
 		argc(2)
@@ -1036,6 +1056,32 @@ func (c *EvalCtx) evalCall(e *Expr) *V {
 				c.fail("asIface expects a typed pointer value")
 			}
 			return &V{K: KIface, T: types.Universe.Lookup("error").Type(), Tag: eng.typeID(a.T), Val: a.S}
+		}
+	case "tagImplements":
+		// tagImplements(tag, "Iface"): values with that dynamic type tag implement the interface
+		argc(2)
+		{
+			if e.Args[1].Op != "str" {
+				c.fail("tagImplements(tag, \"Iface\")")
+			}
+			t := c.resolveType(e.Args[1].Str)
+			if t == nil {
+				c.fail("unknown type %q", e.Args[1].Str)
+			}
+			return vBool(c.run.typeTest(&V{K: KIface, Tag: c.intOf(e.Args[0]), Val: "0"}, t))
+		}
+	case "ptrAs":
+		// ptrAs(x, "*T"): the integer/reference x viewed as a pointer of that type
+		argc(2)
+		{
+			if e.Args[1].Op != "str" {
+				c.fail("ptrAs(x, \"*T\")")
+			}
+			t := c.resolveType(e.Args[1].Str)
+			if t == nil {
+				c.fail("unknown type %q", e.Args[1].Str)
+			}
+			return vInt(c.intOf(e.Args[0]), t)
 		}
 	case "tagof":
 		argc(1)
